@@ -158,15 +158,23 @@ def decPropFilter (n : Node) : Except Err PropFilter :=
   | _ => .error .badRequest
 
 /-- `query.Prop.Decode(&addressData)` + `decodeAddressDataReq`: the address-data element inside DAV:prop -/
+def propNameOf (p : Node) : String :=
+  match p with
+  | .elem _ attrs _ => (attr attrs "name").getD ""
+  | _ => ""
+
+/-- the address-data element's children: allprop, or the named properties -/
+def decDataChildren (children : List Node) : Except Err (Bool × List String) :=
+  let allprop := children.any (·.localIs "allprop")
+  let props := (children.filter (·.localIs "prop")).map propNameOf
+  if (children.filter (·.localIs "prop")).any (fun p => p.space? ≠ some nsCard) then .error .badRequest
+  else if allprop ∧ !props.isEmpty then .error .badRequest
+  else .ok (allprop, props)
+
 def decDataReq (propChildren : List Node) : Except Err (Bool × List String) :=
   match propChildren.find? (·.isElem nsCard "address-data") with
   | none => .ok (false, [])
-  | some (.elem _ _ children) =>
-    let allprop := children.any (·.localIs "allprop")
-    let props := (children.filter (·.localIs "prop")).map (fun p => match p with | .elem _ attrs _ => (attr attrs "name").getD "" | _ => "")
-    if (children.filter (·.localIs "prop")).any (fun p => p.space? ≠ some nsCard) then .error .badRequest
-    else if allprop ∧ !props.isEmpty then .error .badRequest
-    else .ok (allprop, props)
+  | some (.elem _ _ children) => decDataChildren children
   | some _ => .ok (false, [])
 
 def isSp (c : Char) : Bool := c = ' ' || c = '\n' || c = '\t' || c = '\r'
